@@ -83,3 +83,49 @@ def cli_options(repo):
     if not best:
         raise AnalysisError('%s: parse_args declares no option' % REL)
     return mod, fn, best
+
+
+def switch_semantics(repo, flag):
+    """a boolean switch of the command line as what it does: -> [(lang, attribute name, value when absent, value when
+    given)] for every declaration of `flag` (store_true / store_false, with or without dest= / default=); None for a
+    declaration that is not such a switch"""
+    mod, fn, options = cli_options(repo)
+    out = []
+    for o in options:
+        if flag not in o.flags:
+            continue
+        act = o.const('action')
+        if act not in ('store_true', 'store_false'):
+            out.append(None)
+            continue
+        dest = o.const('dest') if 'dest' in o.kw else None
+        if 'dest' in o.kw and dest is None:
+            out.append(None)
+            continue
+        if dest is None:
+            long_ = [f for f in o.flags if f.startswith('--')]
+            dest = (long_[0] if long_ else o.flags[0]).lstrip('-').replace('-', '_')
+        given = act == 'store_true'
+        absent = not given
+        if 'default' in o.kw:
+            d = o.kw['default']
+            if d[0] == 'const' and isinstance(d[1], bool):
+                absent = d[1]
+            else:
+                out.append(None)
+                continue
+        out.append((o.lang, dest, absent, given))
+    return out
+
+
+def eval_switch_expr(node, attr_values, args_name='args'):
+    """value of `args.X` / `not args.X` / `bool(args.X)` under the given attribute values; None when it is anything else"""
+    import ast
+    if isinstance(node, ast.UnaryOp) and isinstance(node.op, ast.Not):
+        v = eval_switch_expr(node.operand, attr_values, args_name)
+        return None if v is None else not v
+    if isinstance(node, ast.Call) and isinstance(node.func, ast.Name) and node.func.id == 'bool' and len(node.args) == 1 and not node.keywords:
+        return eval_switch_expr(node.args[0], attr_values, args_name)
+    if isinstance(node, ast.Attribute) and isinstance(node.value, ast.Name) and node.value.id == args_name and node.attr in attr_values:
+        return attr_values[node.attr]
+    return None
